@@ -26,6 +26,11 @@ CMD = "suit_generator/cmd_encrypt.py"
 SEC = "suit_generator/suit/security.py"
 
 ENT = "$ent"
+# the abstract functions are explicit leading parameters of every function that (transitively) may use them, so that the
+# signatures do not depend on what the current source happens to use
+ENV = "aesgcm_encrypt urandom hash key_file"
+ENVSIG = ("(aesgcm_encrypt : list Z -> list Z -> list Z -> list Z -> list Z) (urandom : nat -> Z -> list Z) "
+          "(hash : list Z -> Z -> list Z -> list Z) (key_file : list Z -> list Z) ")
 
 
 # ------------------------------------------------------------------------------------------------ AST helpers
@@ -171,7 +176,7 @@ class EncTranslator(Translator):
                 return self.args(e.args, cx, enc)
             if rt == ("digestgen",) and e.func.attr == "generate_digest_size_for_plain_text" and len(e.args) == 1 and not e.keywords:
                 dg = cx.vars[e.func.value.id][0]
-                return self.expr(e.args[0], cx, lambda a, ta: self._need(ta, BYTES, e) or self.bindres(f"(generate_digest_size_for_plain_text {dg} {a})", TUPLE(BYTES, INT), "t", k))
+                return self.expr(e.args[0], cx, lambda a, ta: self._need(ta, BYTES, e) or self.bindres(f"(generate_digest_size_for_plain_text {ENV} {dg} {a})", TUPLE(BYTES, INT), "t", k))
         if name in self.f2:
             d = self.f2[name]
             pos = list(e.args)
@@ -195,7 +200,7 @@ class EncTranslator(Translator):
 
             def done(xs):
                 terms = [self.coerce(a, ta, want, e) for (a, ta), want in zip(xs, d["types"])]
-                head = [d["g"]] + ([cx.selfv] if d["takes_self"] else [])
+                head = [d["g"]] + ([ENV] if d["env"] else []) + ([cx.selfv] if d["takes_self"] else [])
                 if d["draws"]:
                     if ENT not in cx.vars:
                         raise Unsupported(e, "entropy-drawing callee outside an entropy-threaded function")
@@ -214,7 +219,7 @@ class EncTranslator(Translator):
             return f"Ok ({g}, {cx.vars[ENT][0]})"
         return f"Ok {g}"
 
-    def define(self, fn, gname, params, kind, fields, rectype, draws=False, body=None):
+    def define(self, fn, gname, params, kind, fields, rectype, draws=False, body=None, env=False):
         """Translate fn (optionally with a replaced body); returns the Definition text."""
         import textwrap
         self.last_ret_type = None
@@ -225,10 +230,11 @@ class EncTranslator(Translator):
         sig = " ".join(f"({p}_ : {gtype(t)})" for p, t in params.items())
         selfsig = f"(self : {rectype}) " if fields is not None else ""
         entsig = "(ent : nat) " if draws else ""
-        return f"Definition {gname} {selfsig}{entsig}{sig} :=\n{textwrap.indent(txt, '  ')}."
+        envsig = ENVSIG if env else ""
+        return f"Definition {gname} {envsig}{selfsig}{entsig}{sig} :=\n{textwrap.indent(txt, '  ')}."
 
-    def register(self, dotted, gname, params, ret, takes_self, draws):
-        self.f2[dotted] = dict(g=gname, names=list(params), types=list(params.values()), ret=ret, takes_self=takes_self, draws=draws)
+    def register(self, dotted, gname, params, ret, takes_self, draws, env=False):
+        self.f2[dotted] = dict(g=gname, names=list(params), types=list(params.values()), ret=ret, takes_self=takes_self, draws=draws, env=env)
 
 
 def check_params(fn, names):
@@ -326,15 +332,11 @@ def gen_encrypt(repo):
     out.append("Definition encryptor_new : encryptor := {| cose_kw_alg := 0 |}.   (* the attribute does not exist before _kw_alg_convert; every entry point sets it first *)\n")
     fields = {"cose_kw_alg": INT}
 
-    out.append("Section Crypto.")
-    out.append("(* AESGCM(key).encrypt(nonce, data, aad) of `cryptography`: ciphertext ++ 16-byte tag *)")
-    out.append("Variable aesgcm_encrypt : list Z -> list Z -> list Z -> list Z -> list Z.")
-    out.append("(* os.urandom(k) at the n-th draw of the history *)")
-    out.append("Variable urandom : nat -> Z -> list Z.")
-    out.append("(* hashes.Hash(<class>(<length>)) applied to the data *)")
-    out.append("Variable hash : list Z -> Z -> list Z -> list Z.")
-    out.append("(* the content of <keys_directory>/<key_name>.bin *)")
-    out.append("Variable key_file : list Z -> list Z.\n")
+    out.append("(* Abstract functions, explicit parameters of the definitions below:")
+    out.append("     aesgcm_encrypt key nonce data aad   AESGCM(key).encrypt(nonce, data, aad) of `cryptography`: ciphertext ++ 16-byte tag")
+    out.append("     urandom n k                         os.urandom(k) at the n-th draw of the history")
+    out.append("     hash class length data              hashes.Hash(<class>(<length>)) applied to the data")
+    out.append("     key_file name                       the content of <keys_directory>/<name>.bin *)\n")
 
     # ---- DigestGenerator (skeleton)
     init = find_def(enc, "DigestGenerator.__init__")
@@ -349,7 +351,7 @@ def gen_encrypt(repo):
                "  match t with [] => None | (k, v) :: r => if list_eqb n k then Some v else hash_lookup n r end.")
     out.append("Definition digest_generator_init (hash_name : list Z) : res (list Z) :=\n"
                "  match hash_lookup hash_name hash_table with Some _ => Ok hash_name | None => Raise ValueError end.")
-    out.append("Definition generate_digest_size_for_plain_text (hash_name plaintext : list Z) : res (list Z * Z) :=\n"
+    out.append("Definition generate_digest_size_for_plain_text " + ENVSIG + "(hash_name plaintext : list Z) : res (list Z * Z) :=\n"
                "  match hash_lookup hash_name hash_table with Some (fam, n) => Ok (hash fam n plaintext, blen plaintext) | None => Raise KeyError end.\n")
 
     # ---- SuitKMS.encrypt
@@ -370,14 +372,14 @@ def gen_encrypt(repo):
     kparams = {"plaintext": BYTES, "key_name": STR, "context": OPT(STR), "aad": BYTES}
     synth = ast.parse("key_data = __key_file(key_name)").body
     out.append("(* SuitKMS.encrypt (PyG; the prefix that reads <key_name>.bin is `key_file key_name`) *)")
-    out.append(tr.define(ke, "kms_encrypt", kparams, "pure", None, None, draws=True, body=synth + kb[3:]) + "\n")
-    tr.register("self.kms.encrypt", "kms_encrypt", kparams, tr.last_ret_type, False, True)
+    out.append(tr.define(ke, "kms_encrypt", kparams, "pure", None, None, draws=True, body=synth + kb[3:], env=True) + "\n")
+    tr.register("self.kms.encrypt", "kms_encrypt", kparams, tr.last_ret_type, False, True, env=True)
 
     # ---- Encryptor
     def method(qual, gname, params, kind="pure", draws=False, body=None, names=None):
         fn = find_def(enc, qual)
         check_params(fn, ["self"] + (names or list(params)))
-        txt = tr.define(fn, gname, params, kind, fields, "encryptor", draws=draws, body=body)
+        txt = tr.define(fn, gname, params, kind, fields, "encryptor", draws=draws, body=body, env=draws)
         out.append(txt + "\n")
         return fn
 
@@ -394,7 +396,7 @@ def gen_encrypt(repo):
     tr.funcs["self._kw_alg_convert"] = ("kw_alg_convert", [STR], ("rec",), True, True)
     p = {"asset_plaintext": BYTES, "key_name": STR, "context": OPT(STR)}
     method("Encryptor.generate_kms_artifacts", "generate_kms_artifacts", p, draws=True)
-    tr.register("self.generate_kms_artifacts", "generate_kms_artifacts", p, tr.last_ret_type, True, True)
+    tr.register("self.generate_kms_artifacts", "generate_kms_artifacts", p, tr.last_ret_type, True, True, env=True)
 
     eag = find_def(enc, "Encryptor.encrypt_and_generate")
     eb = body_of(eag)
@@ -477,9 +479,9 @@ def gen_encrypt(repo):
                   "encryptor.encrypt_and_generate",
                   ["plaintext", "kwargs['key_name']", "kwargs['key_id']", "kwargs['context']", "SuitDigestAlgorithms(kwargs['hash_alg'])",
                    "SuitKWAlgorithms(kwargs['kw_alg'])", "kwargs['kms_script']"], eag_ret,
-                  "(encrypt_and_generate encryptor_new ent plaintext_ key_name_ key_id_ context_ ha_ ka_)", True)
+                  "(encrypt_and_generate " + ENV + " encryptor_new ent plaintext_ key_name_ key_id_ context_ ha_ ka_)", True)
     out.append("(* cmd_encrypt.encrypt_and_generate: the files written into --output-dir, in order (skeleton; names and written expressions extracted) *)")
-    out.append("Definition cli_encrypt_and_generate (ent : nat) (plaintext_ key_name_ : list Z) (key_id_ : Z) (context_ : option (list Z)) (hash_alg_ kw_alg_ : list Z) :=\n"
+    out.append("Definition cli_encrypt_and_generate " + ENVSIG + "(ent : nat) (plaintext_ key_name_ : list Z) (key_id_ : Z) (context_ : option (list Z)) (hash_alg_ kw_alg_ : list Z) :=\n"
                "  match enum_of digest_algs hash_alg_ with Raise x => Raise x | Ok ha_ =>\n"
                "  match enum_of kw_algs kw_alg_ with Raise x => Raise x | Ok ka_ =>\n" + body + " end end.\n")
     body = writer("generate_info", "cli_generate_info",
@@ -490,7 +492,6 @@ def gen_encrypt(repo):
     out.append("(* cmd_encrypt.generate_info *)")
     out.append("Definition cli_generate_info (encrypted_firmware_ encrypted_key_ : list Z) (key_id_ : Z) (kw_alg_ : list Z) :=\n"
                "  match enum_of kw_algs kw_alg_ with Raise x => Raise x | Ok ka_ =>\n" + body + " end.\n")
-    out.append("End Crypto.\n")
 
     # ---- SuitEncryptionInfoExt.from_obj (skeleton): {"raw": hex} | {"file": path} -> SuitBstr(deserialize_cbor(bytes)); to_cbor = dumps(value)
     fo = find_def(sec, "SuitEncryptionInfoExt.from_obj")
